@@ -14,6 +14,7 @@ Capped clause ("both natural parameters are scaled by one factor"): FALSE of the
 -/
 import TsdateVerif.Proofs.EPStarStep
 import TsdateVerif.Proofs.EPGen
+import TsdateVerif.Proofs.EPGenStar
 
 namespace Tsdate.C20
 open Tsdate Tsdate.EP
@@ -93,6 +94,21 @@ theorem C20_uncapped (other : Req α → Res α) (cfg : Cfg α) (net : Net α) (
   rw [star_post net _ N _ hnet h p hp]
   obtain ⟨_, _, _, _, h5⟩ := starRows_sum net N hnet _ _ h.rows p net.ep.size le_rfl
   exact h5 (fun i hi _ => (h.rows i hi).2.2 (hall i hi))
+
+/-- **C20, uncapped clause, for the projection kernels of the current source.**  The same closed form for the EP
+model whose projection oracle is `genProj F`: the dispatch of `propagate_likelihood` over the wrappers regenerated
+from `tsdate/approx.py` on every run (`Gen/Kernels.lean`), for every interpretation `F` of exp/log/sqrt/lgamma under
+which all numbers are finite (`hfin`; exact arithmetic has no overflow). -/
+theorem C20_uncapped_current_source (F : Tsdate.Kernels.SpecFns α) (hfin : ∀ v, F.isFinite v = true)
+    (cfg : Cfg α) (net : Net α) (sch : Sched α) (N : Nat)
+    (hnet : StarNet net N) (hcfg : StarCfg cfg) (hsch : StarSched net sch)
+    (hall : ∀ i, i < net.ep.size → i ∈ sch.edgeOrder)
+    (hcap : ∀ p, p < N → 1 + (likSum net p net.ep.size).1 ≤ cfg.maxShape) (k : Nat) (p : Nat) (hp : p < N) :
+    aget (iterateN (genProj F) cfg net sch (k + 1) (initState N net.ep.size net.bj.size)).post p =
+      likSum net p net.ep.size := by
+  have h := C20_uncapped (genProj F) cfg net sch N hnet hcfg hsch hall hcap k p hp
+  rw [starProj_genProj F hfin] at h
+  exact h
 
 /-- In the uncapped star case all scales are 1 after every iteration (nothing was ever capped). -/
 theorem C20_uncapped_scales (other : Req α → Res α) (cfg : Cfg α) (net : Net α) (sch : Sched α) (N : Nat)
